@@ -107,6 +107,7 @@ type c05Dgram struct {
 	gotMaps  []*RecDispatch
 	gotEvs   []*RecEvent
 	checked  bool
+	ids      []int // socket datagram ids (several for a burst read as one batch)
 }
 
 func kindOf(t gostatsd.MetricType) string {
@@ -166,7 +167,7 @@ func eventString(e gostatsd.Event) string {
 }
 
 func (c05) Run(e *Env) {
-	e.ProbeDecl("normalised-name", "bad-line", "event-line", "empty-line", "host-tag-under-ignore-host", "two-host-tags", "same-gauge-twice", "scribbled", "overlap-delivery-while-parser-parked", "no-trailing-newline", "multi-parser")
+	e.ProbeDecl("normalised-name", "bad-line", "event-line", "empty-line", "host-tag-under-ignore-host", "two-host-tags", "same-gauge-twice", "scribbled", "overlap-delivery-while-parser-parked", "no-trailing-newline", "multi-parser", "burst-read-as-one-batch", "datagram-near-64k")
 	nParsers := e.Range(1, 4)
 	nReaders := e.Range(1, 2)
 	ignoreHost := e.Bool()
@@ -186,7 +187,8 @@ func (c05) Run(e *Env) {
 	sock := NewSimSocket()
 	ch := make(chan []*statsd.Datagram)
 	parser := statsd.NewDatagramParser(ch, ns, ignoreHost, e.Draw(3), h, 0, false, logrus.StandardLogger())
-	recv := statsd.NewDatagramReceiver(ch, func() (net.PacketConn, error) { return sock, nil }, nReaders, e.Range(1, 3))
+	recvBatch := e.Range(1, 3)
+	recv := statsd.NewDatagramReceiver(ch, func() (net.PacketConn, error) { return sock, nil }, nReaders, recvBatch)
 	ctx, cancel := context.WithCancel(stats.NewContext(context.Background(), st))
 	var wg sync.WaitGroup
 	start := func(f func(context.Context)) {
@@ -236,14 +238,58 @@ func (c05) Run(e *Env) {
 		} else {
 			e.Probe("no-trailing-newline")
 		}
+		if !decoy && e.Chance(1, 500) {
+			// a datagram close to the largest a datagram socket can carry (65 508 - 65 535 bytes)
+			target := 65535 - e.Draw(28)
+			var sb strings.Builder
+			for sb.Len()+len(p)+1 < target-12 {
+				sb.WriteString("pad.c:1|c\n")
+			}
+			filler := target - sb.Len() - len(p) - 1
+			if filler >= 9 {
+				sb.WriteString("pad.g:" + strings.Repeat("7", filler-8) + "|g\n") // fills up to the exact size
+			}
+			p = sb.String() + p
+			e.Probe("datagram-near-64k")
+		}
 		d.payload = []byte(p)
 		d.recvNano = time.Now().UnixNano()
+		d.ids = []int{d.id}
 		expectFromTwins(d, ns, ignoreHost)
 		byTime[d.recvNano] = d
 		byIP[d.ip] = d
 		all = append(all, d)
-		sock.Deliver(&Dgram{ID: d.id, Payload: d.payload, Addr: &net.UDPAddr{IP: net.ParseIP(d.ip), Port: 5000}})
-		e.Event("deliver #%d from %s %q", d.id, d.ip, d.payload)
+		burst := []*Dgram{{ID: d.id, Payload: d.payload, Addr: &net.UDPAddr{IP: net.ParseIP(d.ip), Port: 5000}}}
+		if !decoy && recvBatch > 1 && e.Chance(1, 4) {
+			// more datagrams are waiting in the socket buffer: the reader gets them in the same batch
+			// (one receive timestamp, one pass through the parser, one dispatched map)
+			for len(burst) < recvBatch && e.Bool() {
+				nextID++
+				m := &c05Dgram{id: nextID, ip: fmt.Sprintf("10.%d.%d.%d", 2+nextID/60000, (nextID/250)%250, 1+nextID%250), recvNano: d.recvNano}
+				var ls []string
+				for i, n := 0, e.Range(1, 4); i < n; i++ {
+					ls = append(ls, genC05Line(e))
+				}
+				m.payload = []byte(strings.Join(ls, "\n"))
+				expectFromTwins(m, ns, ignoreHost)
+				d.wantM = append(d.wantM, m.wantM...)
+				d.wantE = append(d.wantE, m.wantE...)
+				d.wantBad += m.wantBad
+				d.ids = append(d.ids, m.id)
+				d.payload = append(append(d.payload, []byte("\n<next datagram of the batch>\n")...), m.payload...)
+				byIP[m.ip] = d
+				burst = append(burst, &Dgram{ID: m.id, Payload: m.payload, Addr: &net.UDPAddr{IP: net.ParseIP(m.ip), Port: 5000}})
+			}
+			if len(burst) > 1 {
+				e.Probe("burst-read-as-one-batch")
+			}
+		}
+		if len(burst) > 1 {
+			sock.DeliverBurst(burst)
+		} else {
+			sock.Deliver(burst[0])
+		}
+		e.Event("deliver #%d from %s %q", d.id, d.ip, truncStr(string(d.payload), 400))
 		return d
 	}
 
@@ -446,9 +492,11 @@ func (c05) Run(e *Env) {
 		checkCounters()
 		// storage fault: the datagram's buffer is overwritten after gostatsd released it
 		for _, g := range group {
-			if buf := sock.Bufs[g.id]; buf != nil && e.Chance(3, 4) {
-				for j := range buf {
-					buf[j] = "X\n9|:#,"[j%7]
+			if bufs := bufsOf(sock, g); len(bufs) > 0 && e.Chance(3, 4) {
+				for _, buf := range bufs {
+					for j := range buf {
+						buf[j] = "X\n9|:#,"[j%7]
+					}
 				}
 				e.Fault("buffer-scribble")
 				e.Probe("scribbled")
@@ -491,4 +539,21 @@ func tagsCanon(m map[SeriesKey]*Obs) string {
 		fmt.Fprintf(&sb, "%s<%s|%s>", k, strings.Join(t, ","), m[k].Source)
 	}
 	return sb.String()
+}
+
+func bufsOf(sock *SimSocket, d *c05Dgram) [][]byte {
+	var out [][]byte
+	for _, id := range d.ids {
+		if b := sock.Bufs[id]; b != nil {
+			out = append(out, b)
+		}
+	}
+	return out
+}
+
+func truncStr(s string, n int) string {
+	if len(s) <= n {
+		return s
+	}
+	return fmt.Sprintf("%s ... (%d bytes)", s[:n], len(s))
 }
